@@ -199,7 +199,12 @@ func runVdrProperty(c *Ctx, prop string) {
 			stats[k] += v
 		}
 		sp := mk(fmt.Sprint("gen", i), src, mode, c.Seed*1000003+int64(i))
-		if c.Rng.Intn(4) == 0 { // interruption and restart
+		if c.Rng.Intn(8) == 0 {
+			sp.LinkedRoot = true
+		}
+		if c.Rng.Intn(6) == 0 { // a chunk fails, mrp is restarted, the chunk is retried
+			sp.FailChunk = true
+		} else if c.Rng.Intn(4) == 0 { // interruption and restart
 			sp.CrashAt = []int{4 + c.Rng.Intn(25)}
 			if c.Rng.Intn(2) == 0 {
 				sp.CrashAt = append(sp.CrashAt, 30+c.Rng.Intn(40))
@@ -300,13 +305,54 @@ func runVdrProperty(c *Ctx, prop string) {
 			reqs[i] = ck.Req
 		}
 		replies := c.Drv.AskBatch(reqs)
+		agrees := func(ck VdrModelCheck, reply string) bool {
+			got, want := reply, ck.Expect
+			if ck.DiskOnly {
+				got = strings.SplitN(got, " fileargs=", 2)[0]
+				want = strings.SplitN(want, " fileargs=", 2)[0]
+			}
+			return got == want
+		}
+		rerun := map[int]bool{} // spec index -> the disagreement was reproduced when re-run alone
+		tries := 0
 		for i, ck := range checks {
 			r.hist("model-check-" + ck.Name)
-			if replies[i] != ck.Expect {
-				r.violate(Violation{Kind: "correspondence", Key: prop + ":model:" + ck.Name, What: ck.What,
-					Input: map[string]interface{}{"spec": specs[owners[i]], "request": ck.Req},
-					Impl:  ck.Expect, Model: replies[i], Broken: "Vdr." + ck.Name})
+			if agrees(ck, replies[i]) {
+				continue
 			}
+			// a run that restarts mrp in-process may see work of the "dead" mrp's
+			// goroutines: re-run the disagreeing case once, alone, before reporting
+			owner := owners[i]
+			if sp := specs[owner]; len(sp.CrashAt) > 0 || sp.FailChunk {
+				if _, done := rerun[owner]; !done && tries < 6 {
+					tries++
+					again := RunVdrSpecs([]*VdrSpec{sp}, 1)[0]
+					bad := false
+					var rq [][]string
+					var cks []VdrModelCheck
+					for _, c2 := range again.Checks {
+						if c2.Prop == prop || c2.Prop == "" {
+							rq = append(rq, c2.Req)
+							cks = append(cks, c2)
+						}
+					}
+					if len(rq) > 0 {
+						for j, rep := range c.Drv.AskBatch(rq) {
+							if !agrees(cks[j], rep) {
+								bad = true
+							}
+						}
+					}
+					rerun[owner] = bad
+				}
+				if !rerun[owner] {
+					r.hist("unreproduced-model-" + ck.Name)
+					continue
+				}
+			}
+			r.violate(Violation{Kind: "correspondence", Key: prop + ":model:" + ck.Name, What: ck.What,
+				Input: map[string]interface{}{"spec": specs[owner], "request": ck.Req},
+				Impl:  ck.Expect, Model: replies[i], Broken: "Vdr." + ck.Name})
 		}
 	}
 }
